@@ -382,7 +382,7 @@ def judge(case, ctx):
         body = table[1:]
         import random
         prng = random.Random(util.fp(case))          # derived from the case, so the replay splits the same way
-        nparts = prng.randint(2, 4)
+        nparts = prng.randint(1, 4)          # a single table too: merge still sorts it and merges its duplicates
         cuts = sorted(prng.randint(0, len(body)) for _ in range(nparts - 1))
         parts, prev = [], 0
         for c_ in cuts + [len(body)]:
